@@ -91,11 +91,27 @@ func Worker(jobPath string) error {
 			go func() { panic("pqsim: deliberate crash (PQSIM_TEST_CRASH)") }()
 			time.Sleep(time.Second)
 		}
+		if job.Expect != nil {
+			if _, ok := job.Expect[i]; !ok {
+				continue
+			}
+		}
 		runSeed := tape.Mix(job.BaseSeed, job.Prop, i)
 		t := tape.New(runSeed)
 		sc := p.Gen(t, job.Tier)
+		if job.Expect != nil {
+			if e, ok := sc.(core.Expecting); ok {
+				e.SetExpect(job.Expect[i], job.ExpectFrom)
+			}
+		}
 		c := core.NewCtx(job.Tier)
 		out := core.SafeRun(p, sc, c)
+		if out.Digest != "" && i < job.KeepDigests {
+			if res.Digests == nil {
+				res.Digests = map[int]string{}
+			}
+			res.Digests[i] = out.Digest
+		}
 		res.Runs++
 		if out.Evals > 0 {
 			res.Evals += out.Evals
@@ -145,6 +161,22 @@ func shrinkAndSave(p core.Prop, job *core.Job, idx int, runSeed uint64, vals []u
 	}
 	if p.Info().Level == "fault_enumeration" {
 		maxExec, maxWall = maxExec/3, maxWall/2
+	}
+	if job.Expect != nil {
+		// the expected digest belongs to this exact scenario: no shrinking
+		c := core.NewCtx(job.Tier)
+		c.KeepLog = true
+		out := core.SafeRun(p, origSc, c)
+		if out.Violation == nil {
+			out.Violation = v
+		}
+		scJSON, _ := json.Marshal(origSc)
+		r := &core.Replay{Property: p.ID(), Class: out.Violation.Class, Detail: out.Violation.Detail, BaseSeed: job.BaseSeed, RunIndex: idx, RunSeed: runSeed,
+			Tier: job.Tier, Variant: job.Variant, EventHash: c.Hash(), Events: c.Events(), Tape: vals, Scenario: scJSON, Trace: c.Log}
+		os.MkdirAll(job.ReplayDir, 0o755)
+		path := filepath.Join(job.ReplayDir, fmt.Sprintf("%s-%d-%d-%s.json", p.ID(), job.BaseSeed, idx, job.Variant))
+		core.WriteReplay(path, r)
+		return core.Found{Class: r.Class, Detail: r.Detail, Replay: path, RunIndex: idx, RunSeed: runSeed, Variant: job.Variant}
 	}
 	minTape, st := core.Shrink(p, job.Tier, vals, v.Class, maxExec, maxWall)
 	// final run on the minimised tape, with the log kept
@@ -324,12 +356,23 @@ func Driver(propID, tier string, baseSeed uint64) int {
 		variant string
 		runs    int
 		workers int
-		offset  int
+		cross   bool
 	}
-	batches := []batch{{exe, "plain", bud.Runs, nw, 0}}
+	batches := []batch{{exe, "plain", bud.Runs, nw, false}}
+	if os.Getenv("PQSIM_NOCROSS") != "" {
+		bud.Cross = 0
+	}
+	if bud.Cross > 0 {
+		pexe := os.Getenv("PQSIM_PUREGO_BIN")
+		if pexe == "" {
+			fmt.Fprintln(os.Stderr, "pqsim: purego binary not provided")
+			return 2
+		}
+		batches = append(batches, batch{pexe, "purego", bud.Cross, nw, true}, batch{exe, "avx2only", bud.Cross, nw, true}, batch{exe, "noavx", bud.Cross, nw, true})
+	}
 	if bud.Race > 0 {
 		if rexe := os.Getenv("PQSIM_RACE_BIN"); rexe != "" {
-			batches = append(batches, batch{rexe, "race", bud.Race, nw, 0})
+			batches = append(batches, batch{rexe, "race", bud.Race, nw, false})
 		} else {
 			fmt.Fprintln(os.Stderr, "pqsim: race binary not provided")
 			return 2
@@ -354,7 +397,14 @@ func Driver(propID, tier string, baseSeed uint64) int {
 		for w := 0; w < bt.workers; w++ {
 			job := core.Job{Prop: propID, Tier: tier, BaseSeed: baseSeed, Start: w, Stride: bt.workers, Count: bt.runs,
 				MaxWallS: int(bud.MaxWall.Seconds()), Out: filepath.Join(work, fmt.Sprintf("res-%s-%d.json", bt.variant, w)),
-				Variant: bt.variant, ReplayDir: replayDir}
+				Variant: bt.variant, ReplayDir: replayDir, KeepDigests: bud.Cross}
+			if bt.cross {
+				job.Expect = m.Digests
+				job.ExpectFrom = "plain"
+				if len(job.Expect) == 0 {
+					continue
+				}
+			}
 			jb, _ := json.Marshal(&job)
 			jp := filepath.Join(work, fmt.Sprintf("job-%s-%d.json", bt.variant, w))
 			os.WriteFile(jp, jb, 0o644)
@@ -369,6 +419,7 @@ func Driver(propID, tier string, baseSeed uint64) int {
 					os.Remove(job.Out + ".cur")
 					cmd := exec.Command(bt.exe, "-test.run", "^TestWorker$", "-test.timeout", "0")
 					cmd.Env = append(os.Environ(), "PQSIM_MODE=worker", "PQSIM_JOB="+jp, "GOMAXPROCS=2", "GORACE=halt_on_error=1 exitcode=66", "PQSIM_VARIANT="+bt.variant)
+					cmd.Env = append(cmd.Env, VariantEnv(bt.variant)...)
 					logf, _ := os.Create(jp + ".log")
 					cmd.Stdout = logf
 					cmd.Stderr = logf
@@ -454,9 +505,12 @@ func Driver(propID, tier string, baseSeed uint64) int {
 
 	// violations: dedupe by class, confirm each replay in a fresh process
 	known := loadKnown()
-	sort.Slice(m.Found, func(i, j int) bool {
+	sort.SliceStable(m.Found, func(i, j int) bool {
 		if m.Found[i].Class != m.Found[j].Class {
 			return m.Found[i].Class < m.Found[j].Class
+		}
+		if pi, pj := m.Found[i].Variant == "plain", m.Found[j].Variant == "plain"; pi != pj {
+			return pi
 		}
 		return m.Found[i].RunIndex < m.Found[j].RunIndex
 	})
@@ -466,8 +520,11 @@ func Driver(propID, tier string, baseSeed uint64) int {
 	var knownLines []string
 	exit := 0
 	exeFor := func(variant string) string {
-		if variant == "race" {
+		switch variant {
+		case "race":
 			return os.Getenv("PQSIM_RACE_BIN")
+		case "purego":
+			return os.Getenv("PQSIM_PUREGO_BIN")
 		}
 		return exe
 	}
@@ -489,7 +546,7 @@ func Driver(propID, tier string, baseSeed uint64) int {
 		if isKnown {
 			continue
 		}
-		code := runReplayProcess(exeFor(f.Variant), f.Replay)
+		code := runReplayProcess(exeFor(f.Variant), f.Replay, f.Variant)
 		if (strings.HasSuffix(f.Class, "/crash") && code == 3) || (strings.HasSuffix(f.Class, "/hang") && code == 4) {
 			code = 1
 		}
@@ -509,7 +566,7 @@ func Driver(propID, tier string, baseSeed uint64) int {
 		if k.Prop != propID || knownHit[k.Class] || k.Replay == "" {
 			continue
 		}
-		code := runReplayProcess(exe, filepath.Join(verifDir, k.Replay))
+		code := runReplayProcess(exe, filepath.Join(verifDir, k.Replay), "plain")
 		if code == 1 {
 			knownHit[k.Class] = true
 			knownLines = append(knownLines, fmt.Sprintf("KNOWN-FINDING: property=%s %s :: %s", propID, k.Class, k.Desc))
@@ -533,9 +590,22 @@ func Driver(propID, tier string, baseSeed uint64) int {
 	return exit
 }
 
-func runReplayProcess(exe, path string) int {
+// VariantEnv is the extra environment of a build/CPU variant.
+func VariantEnv(variant string) []string {
+	const avx512off = "cpu.avx512=off,cpu.avx512f=off,cpu.avx512bw=off,cpu.avx512cd=off,cpu.avx512dq=off,cpu.avx512vl=off,cpu.avx512vbmi=off"
+	switch variant {
+	case "avx2only":
+		return []string{"GODEBUG=" + avx512off}
+	case "noavx":
+		return []string{"GODEBUG=" + avx512off + ",cpu.avx2=off,cpu.avx=off"}
+	}
+	return nil
+}
+
+func runReplayProcess(exe, path, variant string) int {
 	cmd := exec.Command(exe, "-test.run", "^TestNothing$")
 	cmd.Env = append(os.Environ(), "PQSIM_MODE=replay", "PQSIM_REPLAY="+path, "PQSIM_QUIET=1", "GORACE=halt_on_error=1 exitcode=66")
+	cmd.Env = append(cmd.Env, VariantEnv(variant)...)
 	var buf strings.Builder
 	cmd.Stdout = &buf
 	cmd.Stderr = &buf
@@ -603,6 +673,12 @@ func (m *merged) merge(w *core.WorkerResult) {
 		m.Faults[k] += v
 	}
 	m.Found = append(m.Found, w.Found...)
+	for k, v := range w.Digests {
+		if m.Digests == nil {
+			m.Digests = map[int]string{}
+		}
+		m.Digests[k] = v
+	}
 	if len(m.Samples) < 4 {
 		m.Samples = append(m.Samples, w.Samples...)
 	}
